@@ -23,6 +23,7 @@ static uint64_t ulpDist(double a, double b)
 static Outcome runCase(const KV& c)
 {
     Outcome o;
+    setVectorScaleExp(c, o);
     ProblemSpec p     = ProblemSpec::get(c);
     const int depth   = (int)c.getI("depth");
     const int threads = (int)c.getI("threads");
@@ -245,6 +246,7 @@ static KV genCase()
     c.putI("threads", rpick({1, 1, 2, 3, 5, 16}));
     c.putI("u_kind", rweighted({4, 3, 1, 1, 1, 1}));
     c.putU("u_seed", rseed());
+    c.putI("vec_scale_exp", rpick({0, 0, 0, 0, 0, 0, -300, -100, 100, 300}));
     c.putI("f_kind", rweighted({4, 3, 1, 1, 1, 1}));
     c.putU("f_seed", rseed());
     c.putI("probe", (p.nr() * p.ntheta() <= 400 && rint(0, 2) == 0) ? 1 : 0);
